@@ -28,6 +28,18 @@ func init() {
 }
 
 func genC14(ctx *Ctx) {
+	// scale (direct oracle only): strings of 100 .. 20000 characters with many quote characters, for every state and quote
+	for _, n := range []int{100, 129, 257, 1025, 5000, 20000} {
+		for _, q := range []rune{'"', '\'', 'é'} {
+			rs := make([]rune, n)
+			for i := range rs {
+				rs[i] = []rune{'a', q, 'é', q, q, ' ', '日', 'b', '\n', '😀'}[(i*7+i/3)%10]
+			}
+			for st := int64(0); st < 3; st++ {
+				ctx.OracleOnly(sx.L(sx.I(st), sx.I(int64(q)), sx.R(rs), sx.R([]rune{',', 'x'})), fmt.Sprintf("scale: a string of %d characters", n))
+			}
+		}
+	}
 	quotes := []rune{'"', '\'', 'é', '日'}
 	depth := 3
 	if ctx.Thorough {
